@@ -286,7 +286,10 @@ def paths_from_path(
     # files in the first place.
     if ignore_files:
         for ignore_path, ignore_file in _iter_config_files(
-            Path(path).absolute(),
+            # NOTE: `abspath` (unlike `Path.absolute`) collapses any `..`
+            # parts, which would otherwise be treated as directory names when
+            # working out the directories between here and the working path.
+            Path(os.path.abspath(path)),
             Path(working_path) if isinstance(working_path, str) else working_path,
         ):
             ignore_spec = ignore_file_loaders[ignore_file](ignore_path, ignore_file)
